@@ -7,5 +7,6 @@ CONSTANTS
   Cap = 1048576
   MaxOps = 0
   StrictTx = TRUE
+INVARIANTS TNoPanic
 PROPERTIES TReplyRxProp TReplyShapeProp TNoCrossClientProp TKernelTxWinsProp TRecordedTxLaterProp TLostTxDroppedProp TStaleUpdateNoEffectProp TUpdateLocalProp THandleLocalProp
 POSTCONDITION Consumed
